@@ -117,6 +117,15 @@ def build():
         ensures final(self).acq@ == old(self).acq@ + 1, final(self).inner_.%s == %s, // [C10,C18] one acquisition, this field set
             %s, // [C07,C18,C14] ... and ONLY this field: no other negotiated flag (gate) changes""" % (fld, val, frame))
     u.raw("}")
+    # the proxy's initial state (third session): a freshly built proxy has NO negotiated flag and no recorded failure, and talks on the
+    # endpoint it was given - so that "impossible before negotiation" (C07) and the gates of C18 start from the closed position
+    u.raw("impl Backend {")
+    u.extracted_fn(br, "new", within=span0,
+                   sig_rw=[("R3", r'Endpoint<VhostUserMsgHeader<BackendReq>>', 'Endpoint<BackendReq>'), ("R3", r'-> Self\b', '-> Backend')],
+                   body_rw=[("R8", r'inner:\s*Arc::new\(Mutex::new\((BackendInternal \{[^{}]*\})\)\),?', r'inner_: \1, acq: Ghost(0nat),')],
+                   contract="""
+        ensures r.inner_.sock == ep, !r.inner_.reply_ack_negotiated, !r.inner_.shared_object_negotiated, !r.inner_.shmem_negotiated, r.inner_.error is None, // [C07,C18:proxy-starts-closed] nothing is negotiated and nothing has failed on a new proxy""")
+    u.raw("}")
     span = br.impl_span(r'^impl VhostUserFrontendReqHandler for Backend$')
     u.raw("impl Backend {")
     for name, c in PROXY.items():
